@@ -176,8 +176,15 @@ def gen_spec(rng: random.Random, max_nodes: int = 5, tie_p: float = 0.3, overrun
     for k_, c_ in enumerate(conns):
         if rng.random() < shadow_p:
             c_["name"] = f"in{k_}"  # the receiver knows this input under a shadow name: connect(..., name=...)
+            others = [i for i in range(n) if i != c_["src"] and not any(x["dst"] == c_["dst"] and x["src"] == i for x in conns)
+                      and not any(x is not c_ and x["dst"] == c_["dst"] and x.get("name") == ("@%d" % i) for x in conns)]
+            if others and rng.random() < 0.4:
+                # ... and that shadow name happens to be the name of another node of the graph (one that is not an input of this receiver):
+                # legal, and nothing may look the connection's producer up under the input name. "@i" is resolved to node i's final name below.
+                c_["name"] = "@%d" % rng.choice(others)
     _repair(spec)
     spec["share_dists"] = rng.random() < 0.35
+    spec["_resolve_names"] = True
     if rng.random() < twin_p:
         # a "twin": a second node of the same class with exactly the same inputs (same producers, windows, policies and - shared - distribution
         # objects), rate and settings as an existing one, e.g. two identical loggers / redundant controllers. Nothing that is cached per kind of
@@ -199,6 +206,10 @@ def gen_spec(rng: random.Random, max_nodes: int = 5, tie_p: float = 0.3, overrun
             nd["name"] = nm
         spec["dict_order"] = rng.sample(range(n), n)
         spec["conn_order"] = rng.sample(range(len(conns)), len(conns))
+    del spec["_resolve_names"]
+    for c_ in conns:
+        if str(c_.get("name", "")).startswith("@"):
+            c_["name"] = nodes[int(c_["name"][1:])]["name"]
     return spec
 
 
